@@ -70,6 +70,9 @@ add('time12_sp_then_month_d_y', lambda d: '%d:%02d:%02d %s %s %d, %04d' % (h12(d
 add('time_then_iso', lambda d: '%02d:%02d:%02d %04d-%02d-%02d' % (d.hour, d.minute, d.second, d.year, d.month, d.day), 's')
 add('time_us_then_d_mon_y', lambda d: '%02d:%02d:%02d.%06d %d %s %04d' % (d.hour, d.minute, d.second, d.microsecond, d.day, MON[d.month - 1], d.year), 'us')
 add('wd_d_mon_time_y', lambda d: '%s %d %s %02d:%02d:%02d %04d' % (WD[d.weekday()], d.day, MON[d.month - 1], d.hour, d.minute, d.second, d.year), 's')
+# day glued to a month name
+add('dMonY_glued', lambda d: '%d%s%04d' % (d.day, MON[d.month - 1], d.year), 'd')
+add('ddMonthY_glued_time', lambda d: '%02d%s%04dT%02d:%02d:%02d' % (d.day, MONF[d.month - 1], d.year, d.hour, d.minute, d.second), 's')
 add('iso_hms', lambda d: '%04d-%02d-%02d %02dh%02dm%02ds' % (d.year, d.month, d.day, d.hour, d.minute, d.second), 's')
 def _fr(d, n):
     return ('%06d' % d.microsecond)[:n]
